@@ -37,6 +37,10 @@ def main():
         root = args[i + 1]
         del args[i:i + 2]
     wb = os.path.join(HERE, 'whitebox')
+    if '--dir' in args:
+        i = args.index('--dir')
+        wb = args[i + 1] if os.path.isabs(args[i + 1]) else os.path.join(HERE, args[i + 1])
+        del args[i:i + 2]
     names = sorted(f[:-5] for f in os.listdir(wb) if f.endswith('.diff'))
     want = [a.upper() for a in args]
     base_cache = {}
@@ -58,12 +62,13 @@ def main():
             continue
         new = [f for f in r.findings if (f.ident(), f.sig) not in (base_cache[prop] or set())]
         gone = [i_ for i_ in (base_cache[prop] or set()) if i_ not in {(f.ident(), f.sig) for f in r.findings}]
+        equiv = '_B' in n           # round 2: behaviour-preserving changes, must stay silent
         if new:
             f = new[0]
-            print('%-12s exit=1  %s %s [%s] (%d new)%s' % (n, f.rule, f.construct, f.key, len(new),
-                                                         ' known-gone:%d' % len(gone) if gone else ''))
+            print('%-12s exit=1  %s%s %s [%s] (%d new)%s' % (n, 'FALSE-ALARM ' if equiv else '', f.rule, f.construct,
+                                                           f.key, len(new), ' known-gone:%d' % len(gone) if gone else ''))
         else:
-            print('%-12s exit=0  MISSED%s' % (n, ' known-gone:%d' % len(gone) if gone else ''))
+            print('%-12s exit=0  %s%s' % (n, 'silent' if equiv else 'MISSED', ' known-gone:%d' % len(gone) if gone else ''))
 
 
 if __name__ == '__main__':
